@@ -1,7 +1,8 @@
 """C20 — fan-out outputs are complete, ordered, well-formed for any number of targets (DESIGN 3/C20).
 
 Correspondence: op histories are run through the REAL MultiOutputHandlerManager (implrun lru-ops, real capacity 256) into a
-scratch directory; the resulting files are compared byte-for-byte with Model.final/Model.render under vm_compute.
+scratch directory; the resulting files are compared byte-for-byte with Model.finalR/Model.render (the manager as repaired: evicted
+handlers are suspended with their record writer and resumed in append mode) under vm_compute.
 Oracle (failing-input search): each target file must be exactly ONE document of the format holding exactly the records/lines
 routed to it in stream order (computed here, independently of the Coq model), for histories driven through the manager and
 for end-to-end mlr runs of tee / split / redirected tee, emit, print, dump.
@@ -349,6 +350,7 @@ def wait_for(paths, timeout=20.0):
 
 
 JOBS = max(1, int(os.environ.get("VERIF_JOBS", "2")))
+TIMEOUTS = {"hang_confirmed": False}
 
 
 def pmap(fn, items):
@@ -392,6 +394,16 @@ def drive(ctx, scratch, cases):
         i, c = ic
         req = prep(i, c)
         rc, out, err = sh([ctx.implrun(), "lru-ops"], inp=req + "\n", timeout=60 if ctx.tier == "quick" else 240)
+        if rc == 124 and not TIMEOUTS["hang_confirmed"]:
+            # a time-out is taken for a hang only after it is confirmed ONCE per run with a long limit (a loaded machine starts
+            # several hundred pipe commands slowly): same history, fresh directory.  If the long run completes, the machine is
+            # slow and later time-outs are retried the same way; if it does not, later time-outs are hangs without a retry.
+            shutil.rmtree(c["dir"], ignore_errors=True)
+            ctx.dist("driver-timeout-retried")
+            req = prep(i, c)
+            rc, out, err = sh([ctx.implrun(), "lru-ops"], inp=req + "\n", timeout=600)
+            if rc == 124:
+                TIMEOUTS["hang_confirmed"] = True
         line = (out.splitlines() or [""])[0]
         if rc == 124:
             c["driver"] = "hang"
@@ -800,7 +812,7 @@ def run(ctx):
                        "pipes beyond capacity / victim-discriminating (touch old handlers, open one new target, write to the LRU victim and its neighbours); "
                        "x {dkvp,nidx,jsonl,csv,json,tsv,xtab (Coq model), pprint (oracle only)} x {>,>>,|}; pre-existing files; CSV records shorter than the header; one kind "
                        "of event per manager (records for tee/emit, text for print/dump) as in Miller; values over [A-Za-z0-9_.-] (codecs are C01). "
-                       "Compared: bytes of every touched or pre-existing file vs Model.render (Model.final ...) under vm_compute. Oracle: file == the one "
+                       "Compared: bytes of every touched or pre-existing file vs Model.render (Model.finalR ...) under vm_compute. Oracle: file == the one "
                        "document a single writer produces for the routed sub-sequence. End-to-end: tee, split -n/-m/-g/-a/-v/-e/--prefix/--suffix/--folder, "
                        "tee/emit/emitf/print/printn/dump with > >> |, 3 and 300 targets, names needing escaping; tee then head.")
     ctx.cov["trusted_base"] = ["Coq 8.16.1 kernel + vm_compute", "no axioms", "python harness + implrun lru-ops driver",
@@ -816,7 +828,7 @@ def run(ctx):
         CAP = int(m.group(1))
     ctx.cov["capacity_constant"] = CAP
     forbidden_gate(ctx, ["Base", "C20"])
-    ok, why = check_props(ctx, "C20/Props.v", ["C20/Harness.vo", "C20/Proofs.vo"])
+    ok, why = check_props(ctx, "C20/Props.v", ["C20/Harness.vo", "C20/Proofs.vo", "C20/ProofsR.vo"])
     scratch = tempfile.mkdtemp(prefix="verif-c20-", dir="/tmp")
     try:
         cases = build_cases(ctx)
